@@ -1,21 +1,40 @@
 """Which functions (under which sidecar) carry which property; bounded parts; level texts."""
 
+L, RR, RUN = 'runner_layers', 'runner_result', 'runner_run'
+TR = 'runner.TestResult.'
+LAYER_FNS = [(L, 'runner.gather_layers'), (L, 'runner.order_by_bases'), (L, 'runner.setup_layer'),
+             (L, 'runner.tear_down_unneeded'), (L, 'runner.run_layer')]
+EVENTS = [(RR, TR + m) for m in ('addError', 'addFailure', 'addUnexpectedSuccess', 'addSubTest', 'addSuccess',
+                                 'addExpectedFailure', 'addSkip')]
+PROTOCOL = (RR, 'unittest_protocol.case_run')
+RUN_TESTS = (RR, 'runner.run_tests')
+RUNNER_LOOP = (RUN, 'runner.Runner.run_tests')
+
 # property -> list of (sidecar, function).  Every obligation generated for these functions is an obligation
 # of the property's check (contracts are shared between properties: a callee's contract carries several).
 FUNCTIONS = {
-    'C01': [('runner_layers', f) for f in (
-        'runner.gather_layers', 'runner.order_by_bases', 'runner.setup_layer', 'runner.tear_down_unneeded',
-        'runner.run_layer')],
+    'C01': LAYER_FNS + [RUNNER_LOOP],
+    'C02': [(L, 'runner.handle_layer_failure'), (L, 'runner.tear_down_unneeded'), (L, 'runner.run_layer'),
+            RUN_TESTS, RUNNER_LOOP],
+    'C04': [(L, 'runner.setup_layer'), (L, 'runner.tear_down_unneeded'), (L, 'runner.run_layer'),
+            (L, 'runner.handle_layer_failure'), (RR, TR + '_restoreStdStreams'), (RR, TR + 'startTest'),
+            (RR, TR + 'stopTest')] + EVENTS + [PROTOCOL, RUN_TESTS, RUNNER_LOOP],
+    'C05': [(L, 'runner.gather_layers'), (L, 'runner.order_by_bases'), (RR, TR + '__init__'), (RR, TR + 'testSetUp'),
+            (RR, TR + 'testTearDown'), (RR, TR + 'startTest'), (RR, TR + 'stopTest'), (RR, TR + 'addSkip'), PROTOCOL],
+    'C08': [('filter_c08', 'filter.build_filtering_func')],
+    'C12': [(RR, TR + 'startTest'), (RR, TR + 'addSkip'), PROTOCOL, RUN_TESTS],
+    'C13': [(RR, TR + '__init__'), (RR, TR + '_setUpStdStreams'), (RR, TR + '_restoreStdStreams'),
+            (RR, TR + 'startTest'), (RR, TR + 'stopTest')] + EVENTS + [PROTOCOL, RUN_TESTS],
+    'C16': [(RR, TR + m) for m in ('addError', 'addFailure', 'addUnexpectedSuccess', 'addSubTest')]
+           + [PROTOCOL, RUN_TESTS, RUNNER_LOOP],
+    'C19': [(RR, TR + 'startTest'), (RR, TR + 'addSkip'), (RR, TR + 'stopTest')],
 }
 
-# vocabulary lemmas proved once per engine are counted with every property that loads the vocabulary
 NATIVE = {p: p.lower() for p in ['C%02d' % i for i in range(1, 21)]}
-
 NATIVE_BUDGET = {'quick': 20, 'thorough': 180}
-
 HOOK_COMMITS = []
 
-COMMON_NOTE = ("Trusted: the VC generator pyvc itself (mitigated by canaries, mutation self-tests, CPython cross-check); "
+COMMON_NOTE = ("Trusted: the VC generator pyvc itself (mitigated by canaries, mutation self-tests, the loop frame check); "
                "z3/cvc5; CPython semantics of the interpreted subset as encoded (ints mathematical, identity equality of "
                "layers/tests, no aliasing between distinct container parameters); assumed contracts of builtins, stdlib and "
                "formatter methods listed in evidence.assumptions / coverage.abstractions_applied. ")
@@ -23,13 +42,15 @@ COMMON_NOTE = ("Trusted: the VC generator pyvc itself (mitigated by canaries, mu
 MANIFEST = {
     'C01': {
         'text': "Proof: every obligation generated from the current source of gather_layers, order_by_bases, setup_layer, "
-                "tear_down_unneeded and run_layer is discharged, for all layer DAGs, all sets of set-up layers and all "
-                "placements of raising hooks: call-site obligations at layer.setUp() (not set up, all bases set up, no refused "
-                "tearDown before), at layer.tearDown() (set up, nothing derived still set up) and at the test-execution site "
-                "(set-up set == layer + transitive bases), the key leaves setup_layers on every path after its tearDown attempt, "
-                "CanNotTearDown only when not optional. A bounded oracle on the real Runner (small layer worlds) replays failures.",
+                "tear_down_unneeded, run_layer and Runner.run_tests is discharged, for all layer DAGs, all sets of set-up "
+                "layers and all placements of raising hooks: call-site obligations at layer.setUp() (not set up, all bases set "
+                "up, no refused tearDown before), at layer.tearDown() (set up, nothing derived still set up) and at the "
+                "test-execution site (set-up set == layer + transitive bases), the key leaves setup_layers on every path after "
+                "its tearDown attempt, CanNotTearDown only when not optional, nothing left set up when Runner.run_tests "
+                "returns, no run_layer after a refused tearDown. A bounded oracle on the real Runner replays failures.",
         'note': COMMON_NOTE + "Assumed: hook contracts (return or raise; cannot reach setup_layers), acyclic __bases__; "
-                "Runner.run_tests loop and the function run_tests are under contract in C02/C16 checks; a spawned child starts "
-                "with nothing set up (OS).",
+                "in a child process at most the resumed layer is registered (post of Filter.global_setup); a spawned child "
+                "starts with nothing set up (OS); 'tearDown attempted exactly once' is proved as 'the key is removed on every "
+                "path right after the single tearDown call site', not over a ghost event log.",
     },
 }
